@@ -127,7 +127,7 @@ class SpacesProp(core.Prop):
         n_spaces, budget, n_samples = {
             ("C04", True): (400, 110000, 12), ("C04", False): (20000, 450000, 16),
             ("C05", True): (400, 40000, 12), ("C05", False): (6000, 200000, 16)}[(self.pid, quick)]
-        for sd in spc.example_spaces():
+        for sd in spc.example_spaces() + (spc.extreme_spaces(floats) if floats else []):
             if self.pid == "C04" and not spc.all_leaves_int(sd):
                 yield self._case({"op": "checkspace", "space": sd, "ood": "unsupported", "mode": "example"})
                 continue
